@@ -124,6 +124,11 @@ fn check_interp<A: Attr>(t: [(f32, f32); 3], zi: usize, r: &mut Report, fam: &st
     let p: [[f64; 2]; 3] = t.map(|(x, y)| [x as f64, y as f64]);
     let area2 = (p[1][0] - p[0][0]) * (p[2][1] - p[0][1]) - (p[1][1] - p[0][1]) * (p[2][0] - p[0][0]);
     if area2.abs() / 2.0 <= 1e-6 { r.h("degenerate-skipped"); return; }
+    // the 0.5% value clause is only meaningful where the data determine the plane: slivers thinner than 0.05 px
+    // (gradients above 20 ranges per pixel) are judged for finiteness and position only
+    let maxedge = (0..3).map(|k| ((p[k][0] - p[(k + 1) % 3][0]).powi(2) + (p[k][1] - p[(k + 1) % 3][1]).powi(2)).sqrt()).fold(0.0, f64::max);
+    let sliver = area2.abs() / maxedge < 0.05;
+    if sliver { r.h("sliver(altitude<0.05px): finiteness only"); }
     let zf = zs.map(|z| z as f64);
     let vf: [Vec<f64>; 3] = std::array::from_fn(|k| v[k].iter().map(|x| *x as f64).collect());
     let (zmin, zmax) = (zf.iter().cloned().fold(f64::MAX, f64::min), zf.iter().cloned().fold(f64::MIN, f64::max));
@@ -144,6 +149,7 @@ fn check_interp<A: Attr>(t: [(f32, f32); 3], zi: usize, r: &mut Report, fam: &st
         let l2 = ((p[1][0] - p[0][0]) * (c[1] - p[0][1]) - (p[1][1] - p[0][1]) * (c[0] - p[0][0])) / area2;
         let l = [1.0 - l1 - l2, l1, l2];
         let zp: f64 = (0..3).map(|k| l[k] * zf[k]).sum();
+        if sliver { continue; }
         if (pos[2] as f64 - zp).abs() > ztol { r.violation(key("depth"), format!("pixel ({x},{y}): depth {} but the plane through the vertex depths gives {zp} (tol {ztol:.2e})", pos[2]), case()); return; }
         for ci in 0..A::N {
             let vp: f64 = (0..3).map(|k| l[k] * vf[k][ci]).sum();
@@ -237,7 +243,7 @@ fn main() {
             &["screen coordinates in [0, 64] (negative pixel coordinates are outside tri_fill's usize domain)", "z = 1, attribute ()"]);
     } else {
         rep.finish(&cfg, "exploration",
-            "triangles as for C04 (thinned in the quick tier) x all 27 reciprocal-depth assignments over {1, 0.5, 0.1} (w ratio up to 10:1) x attribute types f32, (f32,Vec2) and, on a stated subset, Vec2, Vec3, Color3f, Point2 with distinct non-constant vertex values handed over pre-divided (a*z). Oracle: f64 barycentric planes through the vertex depths and values at the pixel centre; var = value plane / depth plane; tolerance 0.5% of the vertex range; every fragment finite for area > 1e-6; reported position within 1e-3 px of the pixel centre. non-trivial = triangle with >= 1 fragment fully judged.",
+            "triangles as for C04 (thinned in the quick tier) x all 27 reciprocal-depth assignments over {1, 0.5, 0.1} (w ratio up to 10:1) x attribute types f32, (f32,Vec2) and, on a stated subset, Vec2, Vec3, Color3f, Point2 with distinct non-constant vertex values handed over pre-divided (a*z). Oracle: f64 barycentric planes through the vertex depths and values at the pixel centre; var = value plane / depth plane; tolerance 0.5% of the vertex range; every fragment finite for area > 1e-6 (triangles with minimum altitude < 0.05 px are judged for finiteness and position only); reported position within 1e-3 px of the pixel centre. non-trivial = triangle with >= 1 fragment fully judged.",
             &["coordinates in [0, 64]", "tolerance 0.005*range + 1e-5*max|value|"]);
     }
 }
